@@ -12,9 +12,11 @@ import (
 	"encoding/json"
 	"fmt"
 	"sort"
+	"strings"
 	"testing"
 
 	"github.com/megaease/easegress/pkg/context"
+	"github.com/megaease/easegress/pkg/filters"
 	"github.com/megaease/easegress/pkg/logger"
 	"github.com/megaease/easegress/pkg/supervisor"
 	"github.com/megaease/easegress/pkg/tracing"
@@ -376,6 +378,140 @@ func c11TcGen(r *vfRand, adv bool) c11TcIn {
 	return in
 }
 
+// ---------------------------------------------------------------------------
+// grp "tcreal": ApplyPipelineForSpec with REAL Pipeline objects (whose Init binds the filters into
+// the typed spec when an explicit flow is given); every spec is parsed afresh from YAML.  The
+// filters are lifecycle recorders, so an Init / Inherit / Close of a filter in service is visible.
+
+type c11RFSpec struct {
+	filters.BaseSpec `yaml:",inline"`
+	Tag              int `yaml:"tag" jsonschema:"omitempty"`
+}
+
+type c11RFilter struct{ spec *c11RFSpec }
+
+var c11RFEvents int
+
+var c11RFKind = &filters.Kind{Name: "C11TcRecFilter", Description: "C11 lifecycle counter", Results: []string{},
+	DefaultSpec:    func() filters.Spec { return &c11RFSpec{} },
+	CreateInstance: func(spec filters.Spec) filters.Filter { return &c11RFilter{spec: spec.(*c11RFSpec)} }}
+
+func (f *c11RFilter) Name() string                   { return f.spec.Name() }
+func (f *c11RFilter) Kind() *filters.Kind            { return c11RFKind }
+func (f *c11RFilter) Spec() filters.Spec             { return f.spec }
+func (f *c11RFilter) Init()                          { c11RFEvents++ }
+func (f *c11RFilter) Inherit(filters.Filter)         { c11RFEvents++ }
+func (f *c11RFilter) Handle(*context.Context) string { return "" }
+func (f *c11RFilter) Status() interface{}            { return nil }
+func (f *c11RFilter) Close()                         { c11RFEvents++ }
+
+func init() { filters.Register(c11RFKind) }
+
+type c11RealSpec struct {
+	Flow    bool `json:"flow"`    // explicit flow (bound to the filter instances by Pipeline.Init)
+	Filters int  `json:"filters"` // number of filters
+	Tag     int  `json:"tag"`
+}
+
+type c11RealOp struct {
+	Name string `json:"name"`
+	Spec int    `json:"spec"`
+}
+
+type c11RealIn struct {
+	Specs []c11RealSpec `json:"specs"`
+	Ops   []c11RealOp   `json:"ops"`
+}
+
+type c11RealStep struct {
+	Err    bool `json:"err"`
+	Panic  bool `json:"panic"`
+	Ret    int  `json:"ret"`    // identity of the returned entity (order of first appearance, from 1)
+	Events int  `json:"events"` // filter Init + Inherit + Close calls caused by this Apply
+}
+
+type c11RealObs struct {
+	Steps []c11RealStep `json:"steps"`
+	Bad   string        `json:"bad,omitempty"`
+}
+
+func c11RealYAML(name string, s c11RealSpec) string {
+	var sb strings.Builder
+	fmt.Fprintf(&sb, "name: %s\nkind: Pipeline\n", name)
+	if s.Flow {
+		sb.WriteString("flow:\n")
+		for i := 0; i < s.Filters; i++ {
+			fmt.Fprintf(&sb, "- filter: f%d\n", i)
+		}
+	}
+	sb.WriteString("filters:\n")
+	for i := 0; i < s.Filters; i++ {
+		fmt.Fprintf(&sb, "- name: f%d\n  kind: C11TcRecFilter\n  tag: %d\n", i, s.Tag)
+	}
+	return sb.String()
+}
+
+func c11RealRun(in c11RealIn) (obs c11RealObs) {
+	ss, err := supervisor.NewSpec("name: tc\nkind: TrafficController\n")
+	if err != nil {
+		obs.Bad = "tc spec: " + err.Error()
+		return
+	}
+	tc := &TrafficController{}
+	tc.Init(ss)
+	ids := map[*supervisor.ObjectEntity]int{}
+	for _, op := range in.Ops {
+		if op.Spec < 0 || op.Spec >= len(in.Specs) {
+			obs.Bad = "spec index"
+			return
+		}
+		// a fresh Spec object parsed from YAML for every call, as the object registry does
+		spec, err := supervisor.NewSpec(c11RealYAML(op.Name, in.Specs[op.Spec]))
+		if err != nil {
+			obs.Bad = "spec: " + err.Error()
+			return
+		}
+		st := c11RealStep{}
+		c11RFEvents = 0
+		func() {
+			defer func() {
+				if r := recover(); r != nil {
+					st.Panic = true
+				}
+			}()
+			ent, e := tc.ApplyPipelineForSpec("n1", spec)
+			if e != nil || ent == nil {
+				st.Err = true
+				return
+			}
+			if _, ok := ids[ent]; !ok {
+				ids[ent] = len(ids) + 1
+			}
+			st.Ret = ids[ent]
+		}()
+		st.Events = c11RFEvents
+		obs.Steps = append(obs.Steps, st)
+	}
+	return
+}
+
+func c11RealGen(r *vfRand, adv bool) c11RealIn {
+	var in c11RealIn
+	for k := r.Range(2, 3); k > 0; k-- {
+		in.Specs = append(in.Specs, c11RealSpec{Flow: r.Chance(2, 3) || adv, Filters: r.Range(1, 3), Tag: r.Intn(2)})
+	}
+	last := map[string]int{}
+	for k := r.Range(3, 12); k > 0; k-- {
+		op := c11RealOp{Name: r.PickStr("a", "a", "b"), Spec: r.Intn(len(in.Specs))}
+		if sp, ok := last[op.Name]; ok && r.Chance(1, 2) {
+			op.Spec = sp // re-apply the identical spec
+		}
+		last[op.Name] = op.Spec
+		in.Ops = append(in.Ops, op)
+	}
+	return in
+}
+
 func TestVerifC11TC(t *testing.T) {
 	out := vfOpen(t)
 	defer out.Close()
@@ -385,6 +521,13 @@ func TestVerifC11TC(t *testing.T) {
 			t.Fatal(err)
 		}
 		out.Emit(vfCase{ID: sc.ID, Src: sc.Src, Grp: "tc", In: in, Obs: c11TcRun(in)})
+	}
+	for _, sc := range vfStored("tcreal") {
+		var in c11RealIn
+		if err := json.Unmarshal(sc.In, &in); err != nil {
+			t.Fatal(err)
+		}
+		out.Emit(vfCase{ID: sc.ID, Src: sc.Src, Grp: "tcreal", In: in, Obs: c11RealRun(in)})
 	}
 	if vfReplayOnly() {
 		return
@@ -397,6 +540,11 @@ func TestVerifC11TC(t *testing.T) {
 	}
 	n := vfN(60)
 	for i := 0; i < n; i++ {
+		if i%5 == 4 {
+			in := c11RealGen(root.Fork(i), adv)
+			out.Emit(vfCase{ID: fmt.Sprintf("%s-tcreal-%d", src, i), Src: src, Grp: "tcreal", In: in, Obs: c11RealRun(in)})
+			continue
+		}
 		in := c11TcGen(root.Fork(i), adv)
 		out.Emit(vfCase{ID: fmt.Sprintf("%s-tc-%d", src, i), Src: src, Grp: "tc", In: in, Obs: c11TcRun(in)})
 	}
